@@ -168,8 +168,11 @@ static void c05_fail_probe(World *w, Buf *b, Buf *last) {
     uint32_t cc = g32(m.p + 6);
     /* Shutdown/Startup and commands that legitimately end a pending H-CRTM sequence are not probed here */
     Blob img0 = {0}, img1 = {0}; uint8_t d0[32], d1[32];
-    Blob st0 = {0}; if (g_store[ST_PERM].present) blob_set(&st0, g_store[ST_PERM].p, g_store[ST_PERM].n);
     World wc; c02_world_copy(&wc, w);
+    /* the battery itself may have an effect the first time it runs after the audit configuration changed (the first audited command
+       bumps the audit counter and stores it): one warm-up run, then the reference */
+    battery(&wc, b, 0, d0);
+    Blob st0 = {0}; if (g_store[ST_PERM].present) blob_set(&st0, g_store[ST_PERM].p, g_store[ST_PERM].n);
     battery(&wc, b, 0, d0); persist_getimg(&img0);
     Rsp r = run_raw(m.p, (uint32_t)m.n);
     uint32_t rc = r.rc; long stores = g_store_in_cmd;
